@@ -208,7 +208,11 @@ fn check(h: &Hist, case: &mut Case) -> Result<(), Fail> {
                 .collect();
             for ad in &rp.additionals {
                 let k = key_of(ad);
-                ensure!(model.recs.iter().any(|(x, _)| *x == k), "c13:additional-unregistered", "additional record {:?} is not registered", k);
+                let kind = model.recs.iter().find(|(x, _)| *x == k).map(|(_, kind)| *kind);
+                ensure!(kind.is_some(), "c13:additional-unregistered", "additional record {:?} is not registered", k);
+                // "registered" is what the service registered itself (add-authoritative); what it merely learned
+                // from the network (add-cached) is not its to hand out
+                ensure!(kind != Some(Kind::Cached), "c13:additional-cached", "additional record {:?} was only learned from the network (add-cached), not registered", k);
                 ensure!([1, 28].contains(&ad.rdata.code()), "c13:additional-type", "additional record of type {}", ad.rdata.code());
                 ensure!(targets.contains(&ad.name), "c13:additional-owner", "additional record owned by {:?} but the SRV targets are {:?}", ad.name.render(), targets.iter().map(|t| t.render()).collect::<Vec<_>>());
             }
@@ -231,7 +235,7 @@ fn rec(owner: &str, class: u16, rdata: ARData) -> ARecord {
     ARecord { name: n(owner), class, cache_flush: false, ttl: 3600, rdata }
 }
 
-fn a(ip: u32) -> ARData {
+pub fn a(ip: u32) -> ARData {
     ARData::Typed { code: 1, fields: vec![Val::U32(ip)] }
 }
 
@@ -241,6 +245,10 @@ fn srv(target: &str, port: u16) -> ARData {
 
 fn txt(s: &str) -> ARData {
     ARData::Typed { code: 16, fields: vec![Val::Strs(vec![Bytes(s.as_bytes().to_vec())])] }
+}
+
+fn txt_n(strings: &[&str]) -> ARData {
+    ARData::Typed { code: 16, fields: vec![Val::Strs(strings.iter().map(|s| Bytes(s.as_bytes().to_vec())).collect())] }
 }
 
 pub fn catalogue() -> Vec<ARecord> {
@@ -265,6 +273,9 @@ pub fn catalogue() -> Vec<ARecord> {
         rec("bar.foo", 254, a(0x0a000009)),
         // a CNAME owned by the target of the first SRV record
         rec("a.b.local", 1, ARData::Typed { code: 5, fields: vec![Val::Name(n("ba.local"))] }),
+        // two TXT records of one owner holding the same strings in a different order (different records)
+        rec("foo.bar", 1, txt_n(&["a=1", "b=2"])),
+        rec("foo.bar", 1, txt_n(&["b=2", "a=1"])),
     ]
 }
 
@@ -307,6 +318,19 @@ fn enum_hist(t: Tier, shard: usize, nsh: usize, f: &mut dyn FnMut(Hist) -> bool)
             if !f(Hist { ops: ops.clone(), questions: vec![q.clone()], id: mask as u16 }) {
                 return;
             }
+            // the same store with one of its records learned from the network instead of registered
+            // (questions about the owners of the chosen records, address / SRV / TXT / ANY)
+            if (2..=3).contains(&mask.count_ones()) && [1, 33, 16, 255].contains(&q.qtype) && ops.iter().any(|o| matches!(o, Op::AddAuth(r) if r.name == q.name)) {
+                for c in 0..ops.len() {
+                    let mut with_cached = ops.clone();
+                    if let Op::AddAuth(r) = &ops[c] {
+                        with_cached[c] = Op::AddCached(r.clone());
+                    }
+                    if !f(Hist { ops: with_cached, questions: vec![q.clone()], id: mask as u16 ^ 0x0f0f }) {
+                        return;
+                    }
+                }
+            }
             // pairs: every 7th question gets each second question
             if qi % 7 == (mask as usize % 7) {
                 for s in &q2 {
@@ -337,6 +361,7 @@ fn coll_rdata() -> BoxedStrategy<ARData> {
         1 => (0u8..3).prop_map(|x| ARData::Typed { code: 28, fields: vec![Val::Bytes(Bytes(vec![x; 16]))] }),
         3 => (coll_name(), 80u16..83).prop_map(|(t, p)| ARData::Typed { code: 33, fields: vec![Val::U16(0), Val::U16(0), Val::U16(p), Val::Name(t)] }),
         2 => select(vec!["k=v", "", "x"]).prop_map(txt),
+        1 => select(vec![vec!["a=1", "b=2"], vec!["b=2", "a=1"], vec!["a=1", "a=1"], vec!["a=1"], vec!["", "a=1"]]).prop_map(|v| txt_n(&v)),
         1 => coll_name().prop_map(|t| ARData::Typed { code: 12, fields: vec![Val::Name(t)] }),
         2 => (select(vec![7u16, 8, 9]), coll_name()).prop_map(|(c, t)| ARData::Typed { code: c, fields: vec![Val::Name(t)] }),
         1 => (any::<u16>(), coll_name()).prop_map(|(p, t)| ARData::Typed { code: 15, fields: vec![Val::U16(p), Val::Name(t)] }),
@@ -459,7 +484,7 @@ pub fn def() -> CheckDef {
     let _ = gen::pick(0, 1);
     CheckDef {
         id: "C13",
-        rule: "model-based: a set-based reference store (key = owner, class, rdata; kind authoritative / cached) and an independent matcher give, for every query, a lower bound (authoritative records whose owner equals a question name and that match its type and class: must be answered) and an upper bound (authoritative records whose owner equals or is a label-wise subdomain of a question name and match: may be answered); additional records must be registered A/AAAA records owned by the target of an SRV answer; id, response flag, unicast = OR of the questions' bits; no reply iff nothing may be answered. (1) bounded-exhaustive: every subset of <= 3 (4 thorough) records of a 17-record catalogue (all five classes, a CNAME at an SRV target) whose names collide under concatenation and byte-prefixing (foobar / bar.foo / foo.bar, _my.local / _mysrv.local, a.b.local / ba.local) x 528 single questions (12 names x 11 QTYPEs x 4 QCLASSes) and a sample of question pairs in both orders (one asking for unicast delivery, one not); (2) random histories of add-authoritative / add-cached / remove / clear over 1..3-label names from {a,b,ab,ba,_my,_mysrv,foo,bar,foobar,local} with A, AAAA, SRV, TXT, PTR, MB, MG, MR, MX, NULL, unknown RDATA and records of every other type, classes IN/CS/CH/HS/NONE, and 0..2 questions over all QTYPEs x all QCLASSes x unicast, some named after name-like strings of the sources. Non-trivial = the store is non-empty and a question name is a byte-prefix (after concatenation) of a different, non-subdomain registered name",
+        rule: "model-based: a set-based reference store (key = owner, class, rdata; kind authoritative / cached) and an independent matcher give, for every query, a lower bound (authoritative records whose owner equals a question name and that match its type and class: must be answered) and an upper bound (authoritative records whose owner equals or is a label-wise subdomain of a question name and match: may be answered); additional records must be registered (authoritative) A/AAAA records owned by the target of an SRV answer; id, response flag, unicast = OR of the questions' bits; no reply iff nothing may be answered. (1) bounded-exhaustive: every subset of <= 3 (4 thorough) records of a 19-record catalogue (all five classes, a CNAME at an SRV target, two TXT records of one owner with the same strings in a different order), each subset of 2..3 also with one of its records added as cached instead whose names collide under concatenation and byte-prefixing (foobar / bar.foo / foo.bar, _my.local / _mysrv.local, a.b.local / ba.local) x 528 single questions (12 names x 11 QTYPEs x 4 QCLASSes) and a sample of question pairs in both orders (one asking for unicast delivery, one not); (2) random histories of add-authoritative / add-cached / remove / clear over 1..3-label names from {a,b,ab,ba,_my,_mysrv,foo,bar,foobar,local} with A, AAAA, SRV, TXT, PTR, MB, MG, MR, MX, NULL, unknown RDATA and records of every other type, classes IN/CS/CH/HS/NONE, and 0..2 questions over all QTYPEs x all QCLASSes x unicast, some named after name-like strings of the sources. Non-trivial = the store is non-empty and a question name is a byte-prefix (after concatenation) of a different, non-subdomain registered name",
         assumptions: vec![
             "lowercase names only (case-sensitivity of name equality is not part of the statement)",
             "MAILA / AXFR / IXFR: the statement is silent; such questions never require an answer and admit any type",
